@@ -182,6 +182,30 @@ impl Rib {
             // mark_mui_as_withdrawn_for_prefix . This way, we preserve the
             // last seen attributes/nexthop for this {prefix,mui} combination,
             // while setting the status to Withdrawn.
+            //
+            // A withdrawal for a prefix the store does not hold has nothing
+            // to mark, and the store must not be asked to: it looks the
+            // prefix up for writing, which leaves an empty entry for it
+            // behind, and such an entry ends the store's walk over the less
+            // specific prefixes - a query for anything below the withdrawn
+            // prefix then no longer shows the routes above it.
+            let held = !store
+                .match_prefix(
+                    prefix,
+                    &MatchOptions {
+                        match_type: rotonda_store::MatchType::ExactMatch,
+                        include_withdrawn: true,
+                        include_less_specifics: false,
+                        include_more_specifics: false,
+                        mui: None,
+                    },
+                    &epoch::pin(),
+                )
+                .prefix_meta
+                .is_empty();
+            if !held {
+                return Err(PrefixStoreError::PrefixNotFound);
+            }
             store.mark_mui_as_withdrawn_for_prefix(prefix, mui)?;
                 //.inspect_err(|e| {
                 //    error!(
